@@ -403,6 +403,7 @@ func TestC06(t *testing.T) {
 				c.Steps = append(c.Steps, stp)
 			}
 			c.Storm = rapid.SampledFrom([]int{0, 2, 4}).Draw(rt, "storm")
+			st.SkipShrink(rt, c)
 			f, info := runC06(c)
 			st.Eval()
 			st.Class(fmt.Sprintf("programs-%d", np))
